@@ -90,13 +90,13 @@ func (nn *nonNil) Value(v ssa.Value, b *ssa.BasicBlock, depth int) bool {
 		// single-result assertion to a pointer type: panics unless it holds;
 		// by the module-wide invariant (C11.R1) interfaces never hold nil item pointers
 		if !x.CommaOk {
-			if _, isPtr := x.AssertedType.Underlying().(*types.Pointer); isPtr {
+			if _, isPtr := x.AssertedType.Underlying().(*types.Pointer); isPtr && isItemPointer(x.AssertedType) {
 				return true
 			}
 		}
 	case *ssa.Extract:
 		if ta, ok := x.Tuple.(*ssa.TypeAssert); ok && x.Index == 0 {
-			if _, isPtr := ta.AssertedType.Underlying().(*types.Pointer); isPtr {
+			if _, isPtr := ta.AssertedType.Underlying().(*types.Pointer); isPtr && isItemPointer(ta.AssertedType) {
 				okv := false
 				for _, f := range factsOf(b.Parent()).At(b) {
 					if ex, ok := f.Cond.(*ssa.Extract); ok && ex.Tuple == ssa.Value(ta) && ex.Index == 1 && f.Truth {
